@@ -108,6 +108,13 @@ elif kind == 'c04':
             cases.append((f"$.i[?@{op}$.w]", {"w": o, "i": [o, o1, o2, o3, {}]}))
             cases.append((f"$.i[?@{op}$.w]", {"w": a, "i": [a, a1, a2, a[:-1], []]}))
             cases.append((f"$.i[?@.x{op}@.y]", {"i": [{"x": o, "y": o1}, {"x": o, "y": o2}, {"x": [o], "y": [o1]}, {"x": a, "y": a1}, {"x": a, "y": a2}]}))
+    # integers of the document beyond 2^53 (each exactly an i64): compared with each other they are numbers like any other
+    BIGI = [2**53, 2**53 + 1, 2**53 + 2, 2**62, 2**62 + 1, 2**63 - 1, 2**63 - 2, -(2**53) - 1, -(2**53) - 2, -(2**63), -(2**63) + 1, 0, 1]
+    for x in BIGI:
+        for y in BIGI:
+            for op in OPS:
+                cases.append((f"$[?@[0]{op}@[1]]", [[x, y]])); cases.append((f"$[?@.x{op}$.y]", {"y": y, "i": {"x": x}}))
+        cases.append(("$[?@==$[0]]", [x] + BIGI)); cases.append(("$[?@<$[0]]", [x] + BIGI)); cases.append(("$[?@>=$[0]]", [x] + BIGI))
     # objects whose member names are enclosed in quote characters (a lookup that "unquotes" the name finds the wrong member)
     QO = [{"'k'": 1}, {"'k'": 1.0}, {"'k'": 2, "k": 2}, {"'k'": 5, "k": 2}, {'"k"': 1}, {'"k"': 1, "k": 3}, {"'": 1}, {'"': 1}, {"''": 1, "": 2}, {"k": 1}]
     for x in QO:
